@@ -148,6 +148,12 @@ def check_early_exits(ctx, modname):
                 continue
             checked += 1
             want = EXIT_PROFILE.get(path, (0, 0))
+            # a helper of the reference tree that no longer exists was inlined somewhere next to where it lived: its
+            # exits now show up in a sibling (same enclosing item) or in the item it was nested in
+            parent = path.rsplit('::', 1)[0]
+            for g, (e_, k_) in EXIT_PROFILE.items():
+                if cr.fn(g) is None and (g.rsplit('::', 1)[0] in (parent, path)):
+                    want = (want[0] + e_, want[1] + k_)
             ok = have[0] <= want[0] and have[1] <= want[1]
             ctx.obligation(ok)
             if ok:
